@@ -115,6 +115,12 @@ def gen_field(kind, lv, f, idx, centres, seed=0):
         lo = [int(np.min(a)) for a in idx]
         c = [1e16, 1.0, -1e16, 1.0, 3.0, -1e16, 1e16, 7.0][(lo[0] // 2 + 3 * (lo[1] // 2) + 5 * (lo[2] // 2 if len(lo) > 2 else 0) + lv) % 8]
         return np.full(shape, c)
+    if kind in ('nanlv0', 'nanlv1'):
+        # finite signed values; one NaN cell in every box of level 0 only (nanlv0) / of the finer levels only (nanlv1)
+        v = gen_field('signed', lv, f, idx, centres, seed)
+        if (lv == 0) == (kind == 'nanlv0'):
+            v.reshape(-1)[0] = np.nan
+        return v
     if kind == 'one':
         return np.ones(shape)
     if kind == 'pos':
